@@ -104,8 +104,9 @@ def ev_quotient(c, c1, addl, simplify, order, groups):
     return _finish(ev, res, exc, msg, groups, cf, (c, c1))
 
 
-def ev_merge(c1, c2, groups):
-    ev = {"op": "merge", "c1": C.pcontract(c1), "c2": C.pcontract(c2), "keep": [], "addl": [], "s": "", "t": ""}
+def ev_merge(c1, c2, groups, p1=None, p2=None):
+    # p1 / p2: the operand AS BUILT, when the object has been through earlier calls (read from a fresh construction, not from the object)
+    ev = {"op": "merge", "c1": p1 or C.pcontract(c1), "c2": p2 or C.pcontract(c2), "keep": [], "addl": [], "s": "", "t": ""}
     res, exc, msg = _call(lambda: c1.merge(c2))
     ev["_stats"] = []
 
